@@ -749,7 +749,7 @@ def _generic_kwargs(params, gname, ic, full, weighted, extra):
 def _generic_scenarios(name, f, tier):
     params = inspect.signature(f).parameters
     has_ic = "initial_infecteds" in params
-    graphs = ["P5", "K4"] if tier == "quick" else ["P5", "K4", "S6", "R1", "R2", "R3"]
+    graphs = ["P5", "K4"] if tier == "quick" else ["P5", "K4", "S6", "R1", "R2", "R3", "R4", "R5"]
     if name in SIMULATORS_ACCEPTING_DIGRAPH:
         graphs = graphs + ["D5"]
     if tier == "quick" and name in SIMULATORS_STRING_LABELS:
@@ -820,7 +820,7 @@ def _arr(a, variant):
 def _special_builders(tier):
     """{entry: [(sid suffix, builder)]} for the entry points with non-generic signatures."""
     S = collections.OrderedDict()
-    graphs = ["P5", "K4"] if tier == "quick" else ["P5", "K4", "S6", "R1", "R2"]
+    graphs = ["P5", "K4"] if tier == "quick" else ["P5", "K4", "S6", "R1", "R2", "R3", "R4"]
     variants = ["float", "int"] if tier == "quick" else ["float", "int", "fortran", "list"]
     fulls = [False, True]
 
@@ -1234,6 +1234,18 @@ def _seed(s):
     np.random.seed(s)
 
 
+class CallTimeout(BaseException):
+    """a call did not finish within CALL_TIMEOUT seconds (BaseException: must not be swallowed by
+    an `except Exception` of the code under test); the check turns it into exit 2"""
+
+
+CALL_TIMEOUT = 60
+
+
+def _alarm(signum, frame):
+    raise CallTimeout()
+
+
 def record(scn, seed=12345):
     """Runs one scenario and returns the trace material:
       fp[0..2]   {arg: fingerprint} before, after call 1, after call 2
@@ -1256,8 +1268,11 @@ def record(scn, seed=12345):
     snaps = [{n: snapshot(kw[n]) for n in names}]
     fps = [{n: fingerprint(snaps[0][n]) for n in names}]
     res, exc, rtrees = [], [], []
+    import signal
     for call in (0, 1):
         _seed(seed)
+        old_handler = signal.signal(signal.SIGALRM, _alarm)
+        signal.alarm(CALL_TIMEOUT)
         try:
             with contextlib.redirect_stdout(io.StringIO()):   # deprecation chatter of Gillespie_Arbitrary etc.
                 r = fn(**kw)
@@ -1265,10 +1280,16 @@ def record(scn, seed=12345):
             rtrees.append(tree)
             res.append(fingerprint(tree))
             exc.append(None)
+        except CallTimeout:
+            out["timeout"] = "call #%d did not finish within %d s" % (call + 1, CALL_TIMEOUT)
+            return out
         except Exception as ex:
             rtrees.append(None)
             res.append(RAISED)
             exc.append("%s: %s" % (type(ex).__name__, str(ex)[:200]))
+        finally:
+            signal.alarm(0)
+            signal.signal(signal.SIGALRM, old_handler)
         s = {n: snapshot(kw[n]) for n in names}
         snaps.append(s)
         fps.append({n: fingerprint(s[n]) for n in names})
